@@ -25,6 +25,7 @@ BASE = {
     "iff": lambda a, b: bool(a) == bool(b),
     "ite": lambda c, a, b: a if c else b,
     "inre": lambda s, p: re.fullmatch(p, s) is not None,
+    "inre_prefix": lambda s, p: re.match(p, s) is not None,
     "isnone": lambda v: v is None,
     "val": lambda v: v,
     "div": lambda a, b: a // b,
